@@ -682,9 +682,14 @@ func runParseCase(c *Sexp, budget int, custom customInterp, res []string) (obs p
 			decoy := make([]fileSpec, len(files))
 			copy(decoy, files)
 			raw := decoy[target].raw
-			if len(raw) > 0 && len(raw)%2 == 0 {
-				raw = raw[:len(raw)-1]
-			} else {
+			switch n := len(raw); {
+			case n >= 4 && n%4 == 0:
+				raw = raw[:n/2] // much shorter (a remembered end position lies well inside the real input)
+			case n >= 2 && n%4 == 2:
+				raw = raw[:n-1]
+			case n >= 3 && n%4 == 3:
+				raw = raw[:1]
+			default:
 				raw = append(append([]byte{}, raw...), raw...)
 				raw = append(raw, 'a')
 			}
